@@ -64,7 +64,7 @@ Definition decided (c : scase) : bool :=
 Definition unsupported (c : scase) : bool := in_hyp c && negb (decided c).
 
 (* ------------------------------------------------------------------------------------------------------------------ *)
-(* known findings: five defects of esc's schema PRODUCER (exact programs: selftest/witness/C06-schema-*.json).
+(* known findings: seven defects of esc's schema PRODUCER (exact programs: selftest/witness/C06-schema-*.json).
    Each class is a conjunction of
      (i)  a precondition on the INPUT under which the defect can show at all, and
      (ii) "the reported schema accepts the opened value once the symptom of exactly that defect is neutralised"
@@ -96,10 +96,49 @@ Definition unsupported (c : scase) : bool := in_hyp c && negb (decided c).
                        top schema unchanged when the base's schema is not `type: object`, also when it is `true` (a provider
                        declaring anything, an echo).  In both cases the base may carry members the top does not declare; they
                        survive the merge and the top's additionalProperties (false, or a type) rejects them.
+                       The other arm of the same lines: the BASE's additionalProperties is taken over when the top has none,
+                       although a top without additionalProperties (a bare `type: object`) supplies members of any type; the
+                       symptom also travels to the definitions that READ such a member (${o.user}: check derives the reader's
+                       schema from the surviving additionalProperties).
                        pre: a merged import exists, a provider declares `true` or an object node without additionalProperties,
                             and a provider's schema has an object node with additionalProperties.
-                       relax: every additionalProperties is dropped. *)
-Record relaxation := { r_required : bool; r_never : bool; r_oneof : bool; r_keys : list string; r_addl : bool }.
+                       relax: every additionalProperties is dropped, and the property schemas of the definitions that read a
+                              key a provider returns without declaring it become `true`.
+   F  merge-through-cut value.merge (eval/value.go:254) and evalEnvironment (eval/eval.go:123-130) recompute the schema of an
+                       object by merging the PROPERTY SCHEMAS of top and base (mergedSchema, value.go:398-400), while the value
+                       of a property follows that property's own chain of bases.  A reference copies its target WITH its chain
+                       (copier.copy, value.go:471-478); if that chain holds a non-object layer below an object layer (a: null
+                       in an import, a: {val: true} in the importer), the non-object layer cuts the merge with the base of the
+                       referencing key (value.keys stops there, value.go:159-164) but the parent's schema merge does not see
+                       it: z: ${a} over an imported z: {k: 1} is {val: true}, check and open report properties k, val and
+                       required [k, val].  The schema-level face of C01-assoc-ref.
+                       pre: decided on the evaluator MODEL, which reproduces the defect: the paths (through object keys) of
+                            the root value at which the chain has an object-schema layer over a non-object-schema layer over
+                            an object-schema layer AND the schema-level merge (what the model predicts Go reports there)
+                            differs from the schema of that chain ([cut_paths]; without a reference the fold over the chain
+                            sees the cut and the two agree).  Lines without a world have no such paths.
+                       relax: below exactly those paths `required` is dropped (what a layer beneath the cut would have
+                              contributed; types, constants and additionalProperties stay).
+   G  merge-optional-member  a literal object merged over a member the base MAY have: value.property (value.go:201-217) answers
+                       an unknown base with a late-bound access carrying schema.Property(key) - the schema of an optional
+                       declared property or the additionalProperties schema - and the literal's schema is merged with it as if
+                       the member were there (mergedSchema unites `required`).  When the provider's value has no such member
+                       the opened object is the literal alone and lacks what that schema requires.
+                       pre: a merged import exists and a provider's schema requires names BELOW a property it does not
+                            require or below an additionalProperties.
+                       relax: exactly those names are dropped from every `required`. *)
+Record relaxation := { r_required : bool; r_never : bool; r_oneof : bool; r_keys : list string; r_addl : bool;
+                       r_rkeys : list string;            (* E: definitions reading an undeclared key of a provider *)
+                       r_cuts : list (list string);      (* F: paths below which `required` is dropped *)
+                       r_reqdrop : list string }.        (* G: names dropped from every `required` *)
+
+Definition mk_relax (rq nv oo : bool) (ks : list string) (ad : bool) : relaxation :=
+  {| r_required := rq; r_never := nv; r_oneof := oo; r_keys := ks; r_addl := ad; r_rkeys := []; r_cuts := []; r_reqdrop := [] |}.
+
+Definition kw_set_required (k : keywords) (req : list string) : keywords :=
+  mkKw (k_type k) (k_const k) (k_enum k) (k_multipleOf k) (k_maximum k) (k_exclusiveMaximum k) (k_minimum k)
+       (k_exclusiveMinimum k) (k_maxLength k) (k_minLength k) (k_pattern k) (k_maxItems k) (k_minItems k) (k_uniqueItems k)
+       (k_maxProperties k) (k_minProperties k) req (k_dependentRequired k).
 
 Definition kw_no_required (k : keywords) : keywords :=
   mkKw (k_type k) (k_const k) (k_enum k) (k_multipleOf k) (k_maximum k) (k_exclusiveMaximum k) (k_minimum k)
@@ -118,12 +157,37 @@ Fixpoint relax (fu : nat) (r : relaxation) (s : schema) : schema :=
         let a' := map (relax f r) a in
         let o' := map (relax f r) o in
         let pre' := map (fun t => never_to_always r (relax f r t)) pre in
-        let props' := map (fun kt => (fst kt, if mem (fst kt) (r_keys r) then SAlways
+        let props' := map (fun kt => (fst kt, if mem (fst kt) (r_keys r) || mem (fst kt) (r_rkeys r) then SAlways
                                               else never_to_always r (relax f r (snd kt)))) props in
         SNode ref (if r_oneof r then a' ++ o' else a') (if r_oneof r then [] else o') pre'
               (option_map (relax f r) it) (if r_addl r then None else option_map (relax f r) ad) props'
-              (if r_required r then kw_no_required k else k)
+              (if r_required r then kw_no_required k
+               else match r_reqdrop r with
+                    | [] => k
+                    | dr => kw_set_required k (filter (fun n => negb (mem n dr)) (k_required k))
+                    end)
     | _ => s
+    end
+  end.
+
+(* F: the relaxation below the cut paths.  [paths_under k] keeps the paths that start with key k, without that key. *)
+Definition paths_under (k : string) (ps : list (list string)) : list (list string) :=
+  flat_map (fun p => match p with k' :: r => if String.eqb k k' then [r] else [] | [] => [] end) ps.
+
+Fixpoint relax_at (fu : nat) (ps : list (list string)) (s : schema) : schema :=
+  match fu with
+  | O => s
+  | S f =>
+    match ps with
+    | [] => s
+    | _ =>
+      if existsb (fun p => match p with [] => true | _ => false end) ps
+      then relax C08.jfuel (mk_relax true false false [] false) s
+      else match s with
+           | SNode ref a o pre it ad props k =>
+               SNode ref a o pre it ad (map (fun kt => (fst kt, relax_at f (paths_under (fst kt) ps) (snd kt))) props) k
+           | _ => s
+           end
     end
   end.
 
@@ -267,7 +331,35 @@ Definition prov_any (p : schema -> bool) (c : scase) : bool :=
                      | None => false
                      end) (s_provs c).
 
-Definition relaxation_of (ds : list Eval.envdef) (c : scase) : relaxation :=
+(* G: names a provider's schema requires at or below [s] / below a member the schema does not require *)
+Fixpoint req_below (fu : nat) (s : schema) : list string :=
+  match fu with
+  | O => []
+  | S f =>
+    match s with
+    | SNode _ a o pre it ad props k =>
+        k_required k ++ flat_map (fun kt => req_below f (snd kt)) props ++ flat_map (req_below f) (a ++ o ++ pre)
+        ++ match it with Some t => req_below f t | None => [] end
+        ++ match ad with Some t => req_below f t | None => [] end
+    | _ => []
+    end
+  end.
+
+Fixpoint optional_req (fu : nat) (s : schema) : list string :=
+  match fu with
+  | O => []
+  | S f =>
+    match s with
+    | SNode _ a o pre it ad props k =>
+        flat_map (fun kt => if mem (fst kt) (k_required k) then optional_req f (snd kt) else req_below f (snd kt)) props
+        ++ flat_map (optional_req f) (a ++ o ++ pre)
+        ++ match it with Some t => optional_req f t | None => [] end
+        ++ match ad with Some t => req_below f t | None => [] end
+    | _ => []
+    end
+  end.
+
+Definition relaxation_of (cuts : list (list string)) (ds : list Eval.envdef) (c : scase) : relaxation :=
   let merge := has_merge ds in
   let declared := flat_map (fun pd => match pd_out pd with Some (_, s) => declared_names C08.jfuel s | None => [] end) (s_provs c) in
   let und := flat_map (fun pd => match pd_out pd, pd_const pd with
@@ -275,28 +367,44 @@ Definition relaxation_of (ds : list Eval.envdef) (c : scase) : relaxation :=
                                  | _, _ => []
                                  end) (s_provs c) in
   let lits := def_keys ds ++ declared in
+  let addl := merge && prov_any node_has_addl c
+              && (existsb (fun pd => match pd_out pd with Some (_, SAlways) => true | _ => false end) (s_provs c)
+                  || prov_any (fun t => match t with
+                                        | SNode _ _ _ _ _ None _ k => match k_type k with Some TObj => true | _ => false end
+                                        | _ => false
+                                        end) c) in
   {| r_required := false;   (* finding C06-schema-merge-required is FIXED (dc852d7): no longer excused *)
      r_never := prov_any node_open c;
      r_oneof := prov_any node_union c;
-     r_keys := (let ks := if merge then filter (fun k => mem k lits) und else [] in ks ++ def_readers ks ds);
-     r_addl := merge && prov_any node_has_addl c
-               && (existsb (fun pd => match pd_out pd with Some (_, SAlways) => true | _ => false end) (s_provs c)
-                   || prov_any (fun t => match t with
-                                         | SNode _ _ _ _ _ None _ k => match k_type k with Some TObj => true | _ => false end
-                                         | _ => false
-                                         end) c) |}.
+     r_keys := (let ks := if merge then filter (fun k => mem k lits) und else [] in
+                ks ++ def_readers ks ds);
+     r_addl := addl;
+     r_rkeys := if addl then def_readers und ds else [];
+     r_cuts := cuts;
+     r_reqdrop := if merge
+                  then flat_map (fun pd => match pd_out pd with
+                                           | Some (D, s) => optional_req C08.jfuel s
+                                                            ++ flat_map (fun kt => optional_req C08.jfuel (snd kt)) D
+                                           | None => []
+                                           end) (s_provs c)
+                  else [] |}.
+
+Definition nonnil {A} (l : list A) : bool := match l with [] => false | _ => true end.
 
 Definition relaxation_nonempty (r : relaxation) : bool :=
-  r_required r || r_never r || r_oneof r || r_addl r || match r_keys r with [] => false | _ => true end.
+  r_required r || r_never r || r_oneof r || r_addl r || nonnil (r_keys r) || nonnil (r_rkeys r) || nonnil (r_cuts r)
+  || nonnil (r_reqdrop r).
 
 Definition accepts_relaxed (r : relaxation) (o : sobs) (v : json) : bool :=
   match o with
-  | SSch D s => match valid D (relax C08.jfuel r s) v with Some true => true | _ => false end
+  | SSch D s => match valid D (relax_at C08.jfuel (r_cuts r) (relax C08.jfuel r s)) v with Some true => true | _ => false end
   | _ => true
   end.
 
-Definition known (ds : list Eval.envdef) (c : scase) : bool :=
-  let r := relaxation_of ds c in
+(* [cuts]: the cut paths of class F, computed from the evaluator model by the caller ([cuts_of] below; [] for lines without
+   a world) *)
+Definition known (cuts : list (list string)) (ds : list Eval.envdef) (c : scase) : bool :=
+  let r := relaxation_of cuts ds c in
   relaxation_nonempty r
   && match s_value c with
      | VVal v => accepts_relaxed r (s_check c) v && accepts_relaxed r (s_show c) v
@@ -304,23 +412,33 @@ Definition known (ds : list Eval.envdef) (c : scase) : bool :=
      end.
 
 (* for the evidence only: the single class that alone explains a known failure (0 = it takes more than one) *)
-Definition known_class (ds : list Eval.envdef) (c : scase) : N :=
-  let r := relaxation_of ds c in
+Definition known_class (cuts : list (list string)) (ds : list Eval.envdef) (c : scase) : N :=
+  let r := relaxation_of cuts ds c in
   let only := fun (q : relaxation) =>
                 relaxation_nonempty q
                 && match s_value c with
                    | VVal v => accepts_relaxed q (s_check c) v && accepts_relaxed q (s_show c) v
                    | _ => false
                    end in
-  if only {| r_required := r_required r; r_never := false; r_oneof := false; r_keys := []; r_addl := false |} then 1
-  else if only {| r_required := false; r_never := false; r_oneof := false; r_keys := r_keys r; r_addl := false |} then 2
-  else if only {| r_required := false; r_never := r_never r; r_oneof := false; r_keys := []; r_addl := false |} then 3
-  else if only {| r_required := false; r_never := false; r_oneof := r_oneof r; r_keys := []; r_addl := false |} then 4
-  else if only {| r_required := false; r_never := false; r_oneof := false; r_keys := []; r_addl := r_addl r |} then 5
+  if only (mk_relax (r_required r) false false [] false) then 1
+  else if only (mk_relax false false false (r_keys r) false) then 2
+  else if only (mk_relax false (r_never r) false [] false) then 3
+  else if only (mk_relax false false (r_oneof r) [] false) then 4
+  else if only {| r_required := false; r_never := false; r_oneof := false; r_keys := []; r_addl := r_addl r;
+                  r_rkeys := r_rkeys r; r_cuts := []; r_reqdrop := [] |} then 5
+  else if only {| r_required := false; r_never := false; r_oneof := false; r_keys := []; r_addl := false;
+                  r_rkeys := []; r_cuts := r_cuts r; r_reqdrop := [] |} then 6
+  else if only {| r_required := false; r_never := false; r_oneof := false; r_keys := []; r_addl := false;
+                  r_rkeys := []; r_cuts := []; r_reqdrop := r_reqdrop r |} then 7
   else 0.
 
-Definition fail_new (ds : list Eval.envdef) (c : scase) : bool := sfail c && negb (known ds c).
-Definition fail_known (ds : list Eval.envdef) (c : scase) : bool := sfail c && known ds c.
+(* [agree]: the model's schema of the root value is what the implementation reported (negb sch_mismatch; true where no model
+   is at hand).  A failure counts as a RECORDED finding only then: where the model - which reproduces finding F and, outside
+   hist_class, every schema the evaluator builds - does not predict the implementation, the failure is new. *)
+Definition fail_new (agree : bool) (cuts : list (list string)) (ds : list Eval.envdef) (c : scase) : bool :=
+  sfail c && negb (known cuts ds c && agree).
+Definition fail_known (agree : bool) (cuts : list (list string)) (ds : list Eval.envdef) (c : scase) : bool :=
+  sfail c && known cuts ds c && agree.
 
 (* ------------------------------------------------------------------------------------------------------------------ *)
 (* wire:  (sch conform errors unknowns S1 S2 V (P...) S3)        S3 (schema of the open run) may be missing
@@ -563,6 +681,63 @@ Definition sch_mismatch (W : Eval.world) (name : string) (d : Eval.envdef) (c : 
                match cmp_verdict (with_mode W chk show) name d o with 1 | 4 => true | _ => false end in
   bad true false (s_check c) || bad true true (s_show c) || bad false false (s_open c).
 
+(* ---- class F (merge-through-cut), decided on the model -------------------------------------------------------------------
+   [has_cut c]: the chain has a layer whose schema is `type: object`, below it one whose schema is not, below that one whose
+   schema is again.  [cut_paths rep c]: the paths through object keys at which such a chain sits AND the schema-level merge
+   [rep] (the model's prediction of what Go reports at that path: the reported root schema, descended through `properties`)
+   differs from [top_sch] of the chain, i.e. the cut is hidden from mergedSchema.  Without a reference the chain of a key is
+   the concatenation of the layers of the environments, the fold [chain_sch] is the same merge Go performs, and the two
+   agree (C01-assoc shows in the VALUE there, not in the schema). *)
+Definition sch_is_object (s : Chain.sch) : bool := match s with Chain.ScObject _ _ => true | _ => false end.
+
+(* st: 0 nothing seen, 1 an object schema seen, 2 an object schema and then a non-object schema seen *)
+Fixpoint cut_scan (st : nat) (c : list Chain.layer) : bool :=
+  match c with
+  | [] => false
+  | l :: r =>
+      let o := sch_is_object (Chain.l_sch l) in
+      match st with
+      | O => cut_scan (if o then 1 else 0)%nat r
+      | S O => cut_scan (if o then 1 else 2)%nat r
+      | _ => o || cut_scan 2%nat r
+      end
+  end.
+
+Definition has_cut (c : list Chain.layer) : bool := cut_scan 0%nat c.
+
+Fixpoint cut_paths (fu : nat) (rep : Chain.sch) (c : list Chain.layer) : list (list string) :=
+  match fu with
+  | O => []
+  | S f =>
+    if has_cut c && negb (sch_eqb C08.jfuel rep (Chain.top_sch c)) then [[]]
+    else match rep with
+         | Chain.ScObject props _ =>
+             flat_map (fun kt => map (cons (fst kt)) (cut_paths f (snd kt) (Chain.property (fst kt) c))) props
+         | _ => []
+         end
+  end.
+
+(* both check runs (the clause judges both schemas) *)
+Definition cuts_of (W : Eval.world) (name : string) (d : Eval.envdef) : list (list string) :=
+  let one := fun (show : bool) =>
+               let W' := with_mode W true show in
+               let '(c, s) := Eval.eval_env W' EvalWire.model_fuel "" name d Eval.st0 in
+               if Eval.oof s || EvalWire.empty_def d then []
+               else match model_root_sch false W' name d with
+                    | Some rep => cut_paths Chain.sch_fuel rep c
+                    | None => []
+                    end in
+  one false ++ one true.
+
+Definition world_defs (W : Eval.world) (d : Eval.envdef) : list Eval.envdef :=
+  d :: concat (map (fun ne => match snd ne with Eval.LoadOk d' => [d'] | _ => [] end) (Eval.w_envs W)).
+
+(* the clause's verdict where a world is at hand: recorded findings count only where the model predicts the schemas *)
+Definition fail_new_w (W : Eval.world) (name : string) (d : Eval.envdef) (c : scase) : bool :=
+  sfail c && fail_new (negb (sch_mismatch W name d c)) (cuts_of W name d) (world_defs W d) c.
+Definition fail_known_w (W : Eval.world) (name : string) (d : Eval.envdef) (c : scase) : bool :=
+  sfail c && fail_known (negb (sch_mismatch W name d c)) (cuts_of W name d) (world_defs W d) c.
+
 (* ------------------------------------------------------------------------------------------------------------------ *)
 (* line kinds other than the main one of C06:
      (c06s <def> <sch...>)            schema oracle only (worlds the evaluator model has no vocabulary for: providers
@@ -570,7 +745,9 @@ Definition sch_mismatch (W : Eval.world) (name : string) (d : Eval.envdef) (c : 
      (c06q <def...> <sch...>)         classification of the schema part, for the evidence:
                                       0 outside the hypothesis, 1 inside accepted, 2 inside rejected outside the known classes,
                                       4 inside but vocabulary not covered; inside rejected inside the known classes:
-                                      5 A alone, 6 B alone, 7 C alone, 8 D alone, 9 E alone, 3 several classes together
+                                      5 A alone, 6 B alone, 7 C alone, 8 D alone, 9 E alone, 10 F alone, 11 G alone,
+                                      3 several classes together
+     (c06qw name def world <sch...>)  the same with the world (class F is decided on the model)
      (c06cmp name def world check show S)   measurement model vs implementation (cmp_verdict)
      (c06h name def world <sch...>)   the model's schema against the implementation's in the three runs and NOTHING else
                                       (family history_world: built at the border of [hist_class]; its worlds also exercise the
@@ -581,6 +758,7 @@ Definition sch_mismatch (W : Eval.world) (name : string) (d : Eval.envdef) (c : 
 Inductive ocase :=
 | OSch (d : Eval.envdef) (c : scase)
 | OClass (ds : list Eval.envdef) (c : scase)
+| OClassW (W : Eval.world) (name : string) (d : Eval.envdef) (c : scase)
 | OCmp (W : Eval.world) (name : string) (d : Eval.envdef) (o : sobs)
 | OHist (W : Eval.world) (name : string) (d : Eval.envdef) (c : scase).
 
@@ -590,6 +768,11 @@ Definition decode_other (x : sexp) : option ocase :=
       match EvalWire.dec_envdef d, dec_scase s with Some d', Some s' => Some (OSch d' s') | _, _ => None end
   | SList [Atom "c06q"; SList ds; s] =>
       match map_opt EvalWire.dec_envdef ds, dec_scase s with Some ds', Some s' => Some (OClass ds' s') | _, _ => None end
+  | SList [Atom "c06qw"; n; d; w; s] =>
+      match atom_str n, EvalWire.dec_envdef d, EvalWire.dec_world w, dec_scase s with
+      | Some n', Some d', Some w', Some s' => Some (OClassW w' n' d' s')
+      | _, _, _, _ => None
+      end
   | SList [Atom "c06cmp"; n; d; w; chk; show; s] =>
       match atom_str n, EvalWire.dec_envdef d, EvalWire.dec_world w, atom_bool chk, atom_bool show, dec_sobs s with
       | Some n', Some d', Some w', Some c', Some s', Some o' => Some (OCmp (with_mode w' c' s') n' d' o')
@@ -603,14 +786,24 @@ Definition decode_other (x : sexp) : option ocase :=
   | _ => None
   end.
 
+Definition class_code (agree : bool) (cuts : list (list string)) (ds : list Eval.envdef) (c : scase) : N :=
+  if negb (in_hyp c) then 0
+  else if negb (decided c) then 4
+  else if negb (sfail c) then 1
+  else if known cuts ds c && agree
+       then match known_class cuts ds c with 1 => 5 | 2 => 6 | 3 => 7 | 4 => 8 | 5 => 9 | 6 => 10 | 7 => 11 | _ => 3 end
+       else 2.
+
 Definition verdict_other (o : ocase) : N :=
   match o with
-  | OSch d c => verdict_bits false (fail_new [d] c) (fail_known [d] c) (decided c)
-  | OClass ds c =>
-      if negb (in_hyp c) then 0
-      else if negb (decided c) then 4
-      else if negb (sfail c) then 1
-      else if known ds c then match known_class ds c with 1 => 5 | 2 => 6 | 3 => 7 | 4 => 8 | 5 => 9 | _ => 3 end else 2
+  | OSch d c => verdict_bits false (fail_new true [] [d] c) (fail_known true [] [d] c) (decided c)
+  | OClass ds c => class_code true [] ds c
+  | OClassW W n d c =>
+      if sfail c then class_code (negb (sch_mismatch W n d c)) (cuts_of W n d) (world_defs W d) c
+      else class_code true [] [] c
   | OCmp W n d o => cmp_verdict W n d o
-  | OHist W n d c => verdict_bits (sch_mismatch W n d c) false false (negb (hist_class (with_mode W true false) n d))
+  | OHist W n d c =>
+      (* the schema clause's oracle judges this family too (implementation alone; the classes as everywhere) *)
+      verdict_bits (sch_mismatch W n d c) (fail_new_w W n d c) (fail_known_w W n d c)
+                   (negb (hist_class (with_mode W true false) n d) || decided c)
   end.
